@@ -1549,6 +1549,70 @@ class Flattener(object):
             break          # positions changed: one name per call, the fixpoint loop comes back
         return changed
 
+    def _scalarise_dicts(self, node):
+        """A local name bound once to a dict display with literal string keys and used only as `d['key']` (read or store) is a bundle
+        of locals handed from one extracted step to the next:  d = {'a': e0, 'b': e1}  ==>  d__a = e0; d__b = e1 ;  d['a']  ==>  d__a.
+        Exact: the values are evaluated in the same order and nothing else can see the dict object (every use is a literal-key
+        subscript; keys read are keys of the display or keys stored before - a read of any other key is left alone, which blocks
+        the rewriting)."""
+        params = {a.arg for a in node.args.posonlyargs + node.args.args + node.args.kwonlyargs}
+        parents = {}
+        for n in ast.walk(node):
+            for c in ast.iter_child_nodes(n):
+                parents[c] = n
+        nested = [n for n in ast.walk(node) if isinstance(n, (ast.FunctionDef, ast.Lambda, ast.ClassDef)) and n is not node]
+        captured = {x.id for n in nested for x in ast.walk(n) if isinstance(x, ast.Name)}
+        stores, loads = {}, {}
+        for n in ast.walk(node):
+            if isinstance(n, ast.Name):
+                (stores if isinstance(n.ctx, (ast.Store, ast.Del)) else loads).setdefault(n.id, []).append(n)
+        for v, sts in sorted(stores.items()):
+            if v in params or v in captured or v not in loads or len(sts) != 1:
+                continue
+            p = parents.get(sts[0])
+            if not (isinstance(p, ast.Assign) and len(p.targets) == 1 and p.targets[0] is sts[0] and isinstance(p.value, ast.Dict) and p.value.keys and
+                    all(isinstance(k, ast.Constant) and isinstance(k.value, str) and k.value.isidentifier() for k in p.value.keys)):
+                continue
+            # the binding must not sit in a loop or a branch (one dict object for the whole function)
+            if parents.get(p) is not node:
+                continue
+            keys = [k.value for k in p.value.keys]
+            if len(set(keys)) != len(keys) or any(isinstance(x, ast.Name) and x.id == v for x in ast.walk(p.value)):
+                continue
+            ok = True
+            for ld in loads[v]:
+                q = parents.get(ld)
+                if not (isinstance(q, ast.Subscript) and q.value is ld and isinstance(q.slice, ast.Constant) and isinstance(q.slice.value, str)
+                        and q.slice.value in keys and isinstance(q.ctx, (ast.Load, ast.Store))):
+                    ok = False
+                    break
+            if not ok:
+                continue
+            names = {k: '%s__%s' % (v, k) for k in keys}
+            if any(nm in stores or nm in loads for nm in names.values()):
+                continue
+
+            class R(ast.NodeTransformer):
+                def visit_FunctionDef(self_, n):
+                    return self_.generic_visit(n) if n is node else n
+
+                def visit_Assign(self_, n):
+                    if n is p:
+                        self_.generic_visit(n.value)
+                        return [ast.copy_location(ast.Assign(targets=[ast.Name(id=names[k.value], ctx=ast.Store())], value=e), n)
+                                for k, e in zip(n.value.keys, n.value.values)]
+                    return self_.generic_visit(n)
+
+                def visit_Subscript(self_, n):
+                    if isinstance(n.value, ast.Name) and n.value.id == v:
+                        return ast.copy_location(ast.Name(id=names[n.slice.value], ctx=n.ctx), n)
+                    return self_.generic_visit(n)
+            R().visit(node)
+            ast.fix_missing_locations(node)
+            self.desugared += 1
+            return True
+        return False
+
     def _fold_sequence_markers(self, node):
         """`__sequence__(x)` (left by the normal form of `match x: case [..]`) is True when every binding of the local x is a
         list / tuple display, a list comprehension or a call that returns a list"""
@@ -2205,6 +2269,17 @@ class Flattener(object):
                     if isinstance(lit, ast.Constant) and isinstance(lit.value, (str, int, float)) and not isinstance(lit.value, bool):
                         self.n += 1
                         return ast.copy_location(ast.Constant(value=lit.value), node)
+
+                    # a tuple of constants (or of such tuples) is as immutable as a constant: a class-level table of names / rows
+                    def const_tuple(e, depth=0):
+                        if isinstance(e, ast.Constant):
+                            return True
+                        if isinstance(e, ast.UnaryOp) and isinstance(e.op, ast.USub) and isinstance(e.operand, ast.Constant):
+                            return True
+                        return isinstance(e, ast.Tuple) and depth < 2 and all(const_tuple(x, depth + 1) for x in e.elts)
+                    if isinstance(lit, ast.Tuple) and lit.elts and const_tuple(lit):
+                        self.n += 1
+                        return ast.copy_location(clone(lit), node)
                 return node
         if isinstance(s, (ast.If, ast.While)):
             cc = CC()
@@ -2483,7 +2558,7 @@ class Flattener(object):
             node.body = self.lower_comprehensions(node.body)
             node.body = self.rewrite_block(node.body, self.fi.cls, [self.fi.key])
             for _k in range(6):
-                if not self._scalarise_tuples(node):
+                if not (self._scalarise_tuples(node) or self._scalarise_dicts(node)):
                     break
             self._fold_sequence_markers(node)
             if ast.dump(node) == shape:
